@@ -1,10 +1,16 @@
 package main
 
 import (
+	"bytes"
 	"context"
+	"encoding/json"
 	"fmt"
+	"io"
 	"math/big"
 	"net"
+	"net/http"
+	"net/http/httptest"
+	neturl "net/url"
 	"strings"
 
 	"verifharness/vh"
@@ -113,37 +119,115 @@ func (d *pppoePool) do(o Op) string {
 }
 
 // ---- pool.LocalPool through a single-node PeerPool ----
-type localPool struct{ p *peerpool.PeerPool }
+// Case.Wire selects HOW the owner node is reached and what the subscriber IDs look like:
+//
+//	0 Go API, "sub-N"                        1 Go API, circuit-style IDs ("olt-7/1/3/N", with '/', ' ', '?', '%', '#')
+//	2 peer HTTP API (RegisterHandlers: POST /pool/allocate, DELETE /pool/release/{id}, GET /pool/get/{id},
+//	  GET /pool/status - what a non-owner node's forwardAllocation / forwardRelease send), circuit-style IDs
+//	3 peer HTTP API, "sub-N"
+//
+// The Model is the same for all four (the handlers are thin wrappers of allocateLocal / releaseLocal / Get).
+type localPool struct {
+	p    *peerpool.PeerPool
+	wire int
+	mux  *http.ServeMux
+}
+
+func (d *localPool) name(h int) string {
+	if d.wire == 1 || d.wire == 2 {
+		switch h % 3 {
+		case 0:
+			return fmt.Sprintf("olt-7/1/3/%d", h)
+		case 1:
+			return fmt.Sprintf("olt 7/%d?port=%%2F#%d", h, h)
+		}
+		return fmt.Sprintf("%d/eth 0/1/%d/", h, h)
+	}
+	return holderName(h)
+}
+
+func (d *localPool) call(method, path string, body []byte) *httptest.ResponseRecorder {
+	var rd io.Reader
+	if body != nil {
+		rd = bytes.NewReader(body)
+	}
+	req := httptest.NewRequest(method, "http://node-a"+path, rd)
+	rec := httptest.NewRecorder()
+	d.mux.ServeHTTP(rec, req)
+	return rec
+}
 
 func (d *localPool) do(o Op) string {
 	ctx := context.Background()
+	api := d.wire >= 2
+	id := d.name(o.H)
 	switch o.K {
 	case "alloc":
-		r, err := d.p.Allocate(ctx, holderName(o.H), macOf(o.H))
-		if err != nil {
-			if strings.Contains(err.Error(), "exhausted") {
-				return oErr(1)
+		var r *peerpool.AllocationResponse
+		if api {
+			b, _ := json.Marshal(peerpool.AllocationRequest{SubscriberID: id, MAC: macOf(o.H).String()})
+			rec := d.call("POST", "/pool/allocate", b)
+			if rec.Code != 200 {
+				if strings.Contains(rec.Body.String(), "exhausted") {
+					return oErr(1)
+				}
+				return oErr(5)
 			}
-			return oErr(5)
+			r = &peerpool.AllocationResponse{}
+			if err := json.Unmarshal(rec.Body.Bytes(), r); err != nil {
+				return oErr(98)
+			}
+		} else {
+			var err error
+			r, err = d.p.Allocate(ctx, id, macOf(o.H))
+			if err != nil {
+				if strings.Contains(err.Error(), "exhausted") {
+					return oErr(1)
+				}
+				return oErr(5)
+			}
 		}
 		ip := net.ParseIP(r.IP)
-		if ip == nil || r.SubscriberID != holderName(o.H) {
+		if ip == nil || r.SubscriberID != id {
 			return oErr(98)
 		}
 		return oUnit(intOfIP(ip, 32))
 	case "rel":
-		if err := d.p.Release(ctx, holderName(o.H)); err != nil {
+		if api { // as forwardRelease builds it
+			if rec := d.call("DELETE", "/pool/release/"+neturl.PathEscape(id), nil); rec.Code != 200 && rec.Code != 204 {
+				return oErr(5)
+			}
+			return "OOk"
+		}
+		if err := d.p.Release(ctx, id); err != nil {
 			return oErr(5)
 		}
 		return "OOk"
 	case "look":
-		r, ok := d.p.Get(holderName(o.H))
+		if api {
+			rec := d.call("GET", "/pool/get/"+neturl.PathEscape(id), nil)
+			if rec.Code == 404 {
+				return "ONone"
+			}
+			r := &peerpool.AllocationResponse{}
+			if rec.Code != 200 || json.Unmarshal(rec.Body.Bytes(), r) != nil || r.SubscriberID != id {
+				return oErr(98)
+			}
+			return oUnit(intOfIP(net.ParseIP(r.IP), 32))
+		}
+		r, ok := d.p.Get(id)
 		if !ok {
 			return "ONone"
 		}
 		return oUnit(intOfIP(net.ParseIP(r.IP), 32))
 	case "stats":
 		st := d.p.Stats()
+		if api {
+			rec := d.call("GET", "/pool/status", nil)
+			if rec.Code != 200 || json.Unmarshal(rec.Body.Bytes(), &st) != nil {
+				return oErr(98)
+			}
+		}
 		if st.Available != st.Total-st.Allocated {
 			return oErr(96)
 		}
@@ -209,9 +293,17 @@ func init() {
 			if err != nil {
 				return nil, err
 			}
-			return &localPool{p}, nil
+			mux := http.NewServeMux()
+			p.RegisterHandlers(mux)
+			return &localPool{p: p, wire: c.Wire, mux: mux}, nil
 		},
-		gen: func(r *vh.Rng, th bool) []Case { return genFreeList(r, th, "localpool") }})
+		gen: func(r *vh.Rng, th bool) []Case {
+			cs := genFreeList(r, th, "localpool")
+			for i := range cs { // every transport / ID shape gets every generator's cases in turn
+				cs[i].Wire = i % 4
+			}
+			return cs
+		}})
 }
 
 var pppoeIdemCache = -1
